@@ -53,6 +53,12 @@ def observe(prj, before_hash, vcs):
     return trace, wrote
 
 
+def _h(x):
+    """a hash that does not depend on the interpreter's string-hash seed (choices must be the same on every run)"""
+    import zlib
+    return zlib.crc32(repr(x).encode("utf-8"))
+
+
 def run_config(rep, impl, cfg, opts, world, vcs, tags=(), kill=False):
     """cfg=(commit,tag,push,pre,post) opts=(ocommit,otag,opush,dry,allow_dirty,fetch,ignore) world=(has_vcs,remote,dirty,tagmsg_empty,fail)"""
     commit, tag, push, pre, post = cfg
@@ -67,16 +73,16 @@ def run_config(rep, impl, cfg, opts, world, vcs, tags=(), kill=False):
     if vcs == "fakehg":
         status = {0: "", 1: "M other.txt\n", 2: "M a.txt\n", 3: "? other.txt\n"}[dirty]
     # a failing VCS command may or may not say something on stderr
-    vcs_cfg = dict(tags=list(tags), status=status, remote="origin" if remote else None, fail=[fail] if fail else [], fail_silent=hash((cfg, opts, world)) % 2 == 0, usable=True, watch="a.txt")
+    vcs_cfg = dict(tags=list(tags), status=status, remote="origin" if remote else None, fail=[fail] if fail else [], fail_silent=_h((cfg, opts, world)) % 2 == 0, usable=True, watch="a.txt")
     # some git projects are laid out like a linked worktree / submodule (.git is a file); the steps are the same
-    git_file = vcs == "fakegit" and (hash((cfg, opts, world)) % 4 == 0)
+    git_file = vcs == "fakegit" and (_h((cfg, opts, world)) % 4 == 0)
     # every third configuration spells the file entry "./a.txt" (the VCS reports "a.txt"): the steps are the same
-    fkey = "./a.txt" if hash((cfg, opts, world, "dot")) % 3 == 0 else "a.txt"
+    fkey = "./a.txt" if _h((cfg, opts, world, "dot")) % 3 == 0 else "a.txt"
     prj = project.TempProject("MAJOR.MINOR.PATCH", "1.2.3", files={fkey: ["ver = {version}"]}, contents={"a.txt": "ver = 1.2.3\n"}, commit=commit, tag=tag, push=push,
                               vcs=vcs if has_vcs else None, vcs_cfg=vcs_cfg if has_vcs else None, hooks=hooks, git_file=git_file,
                               tag_message="" if tagmsg_empty else "tag {new_version}")
     # every third configuration names its hooks on the command line (--pre-commit-hook / --post-commit-hook) instead of in the config file
-    via_cli = bool(hooks) and hash((cfg, opts, world, "cli")) % 3 == 0
+    via_cli = bool(hooks) and _h((cfg, opts, world, "cli")) % 3 == 0
     prj.hooks_via_cli = via_cli
     with prj:
         if not has_vcs:
